@@ -10,7 +10,7 @@ from ..core import Part, Outcome, Violation, toasty_call
 PROPERTY_ID = "C11"
 LEVEL = "exploration"
 RULE = (
-    "case = (sampler variant, map shape ny x nx in 1..64 incl. 1-pixel axes, optional colour axis of 3 or 4, a 2-D request "
+    "case = (sampler variant, map shape ny x nx in 1..64 incl. 1-pixel axes (a quarter of the cases: 90..999 per axis), optional colour axis of 3 or 4, a 2-D request "
     "array of generated points). Points: any real longitude (|lon| <= 20*pi: base longitude + whole turns), exact multiples of "
     "the cell width, +-pi, 0, 2*pi; latitudes in [-pi/2, pi/2] incl. both ends and exact row boundaries. The map encodes "
     "(row, col) in its values. Oracle: RefPlateCarree computes, in numpy.longdouble, the fractional column/row of the point "
@@ -214,6 +214,8 @@ def exec_case(case):
         cls.append("one-pixel-axis")
     if nx % 2 or ny % 2:
         cls.append("odd-size")
+    if nx > 64 or ny > 64:
+        cls.append("map-larger-than-64px")
     if any(p[2] for p in pts):
         cls.append("shifted-by-turns")
     if any(abs(abs(p[1]) - math.pi / 2) < 1e-12 for p in pts):
@@ -230,6 +232,10 @@ def strat(draw, tier):
     variant = draw(st.sampled_from(VARIANTS))
     ny = draw(st.sampled_from([1, 2, 3, 4, 5, 7, 8, 16, 31, 32, 33, 64]))
     nx = draw(st.sampled_from([1, 2, 3, 4, 5, 8, 9, 16, 31, 32, 63, 64]))
+    if draw(st.integers(0, 3)) == 0:
+        # maps of realistic size (the value code row*1000+col holds up to 999 columns; float32 maps keep it exact)
+        ny = draw(st.sampled_from([90, 100, 127, 180, 255, 360, 500, 513, 720, 999]))
+        nx = draw(st.sampled_from([100, 127, 180, 255, 360, 511, 720, 721, 999]))
     planes = draw(st.sampled_from([0, 0, 3, 4]))
     a = draw(st.integers(1, 6))
     b = draw(st.integers(1, 8))
